@@ -1268,6 +1268,14 @@ func runTypeRecorded(p *Program, r *RuleResult) {
 			}
 			wrongValue := ""
 			isRecord := func(in ssa.Instruction) bool {
+				if c, isCall := in.(ssa.CallInstruction); isCall {
+					for _, vs := range p.helperStores(c) {
+						if vs.key == want && vs.val != nil && (fromConsume(vs.val, 0) || comparedEqual(vs.val)) {
+							return true
+						}
+					}
+					return false
+				}
 				st, ok := in.(*ssa.Store)
 				if !ok || formNamePath(st.Addr, m.Recv, 0) != want {
 					return false
